@@ -112,6 +112,16 @@ def cases(ctx):
     # an integer-like object whose value lives in __int__ / the comparison operators while its raw int is 0 (what a resolved
     # Future of the SDK is) at the sites that are not command fields: register index, array address, entry and slice parts,
     # application id, version bytes
+    # branch immediates at the edge of the range in subroutines whose instruction list carries debug comments (the encoder moves
+    # branch targets when it leaves the comments out) and on the way through the NV transpiler (which renumbers branch targets)
+    for ncomm in (1, 2, 5):
+        for m in ("jmp", "bez", "beq"):
+            for v in (2**31 - 1, 2**31, 2**31 + 1, 2**31 + ncomm - 1, 2**31 + ncomm, 2**32, -2**31, -2**31 - 1, 0, 1, 3):
+                sdk.append({"kind": "debug-branch", "mnemonic": m, "comments": ncomm, "value": v,
+                            "expect": "in" if -2**31 <= v <= 2**31 - 1 else "out"})
+    for m in ("jmp", "bez", "beq", "blt"):
+        for v in (2**31, 2**31 + 7, 2**32, 2**40, -2**31 - 1, 2**31 - 1):
+            sdk.append({"kind": "nv-branch", "mnemonic": m, "value": v, "expect": "in" if -2**31 <= v <= 2**31 - 1 else "out"})
     for site in ("reg", "addr", "entry", "slice", "app", "version"):
         for v in (1, 5, 15, 16, 255, 300, 70000):
             sdk.append({"kind": "carrier", "site": site, "value": v,
@@ -414,6 +424,48 @@ def run_case(ctx, case):
             q = Qubit(conn)
             getattr(q, "rot_" + case["axis"])(n=_typed(case["n"], case.get("vtype")), d=_typed(case["d"], case.get("vtype")))
         sdk(prog, lambda descr, subs: any(d[0] == mn and d[1][1:] == [case["n"], case["d"]] for d in descr))
+    elif kind in ("debug-branch", "nv-branch"):
+        from netqasm.lang import operand as op_
+        from netqasm.lang.encoding import RegisterName
+        from netqasm.lang.instr import core as core_
+        from netqasm.lang.instr.base import DebugInstruction
+        from netqasm.lang.parsing import deserialize
+        from netqasm.lang.subroutine import Subroutine
+        v, m = case["value"], case["mnemonic"]
+        R = lambda i: op_.Register(RegisterName.R, i)
+        br = {"jmp": lambda: core_.JmpInstruction.from_operands([op_.Immediate(v)]),
+              "bez": lambda: core_.BezInstruction.from_operands([R(1), op_.Immediate(v)]),
+              "beq": lambda: core_.BeqInstruction.from_operands([R(1), R(2), op_.Immediate(v)]),
+              "blt": lambda: core_.BltInstruction.from_operands([R(1), R(2), op_.Immediate(v)])}[m]()
+        body = [core_.SetInstruction(reg=R(1), imm=op_.Immediate(0)), core_.SetInstruction(reg=R(2), imm=op_.Immediate(0)), br,
+                core_.SetInstruction(reg=R(3), imm=op_.Immediate(7))]
+        ctx.count("edge_branch_targets")
+        try:
+            if kind == "debug-branch":
+                ins = [DebugInstruction(text="c")] * case["comments"] + body
+                sub = Subroutine(instructions=list(ins), app_id=0)
+                # in-memory numbering counts the comments: a target inside the listing moves, one outside stays as it is
+                n = case["comments"]
+                want = v - n if n <= v <= len(ins) else (0 if 0 <= v < n else v)
+                raw = bytes(sub)
+                dec = deserialize(raw)
+            else:
+                from netqasm.lang.instr.flavour import NVFlavour
+                from netqasm.sdk.transpile import NVSubroutineTranspiler
+                sub = NVSubroutineTranspiler(Subroutine(instructions=list(body), app_id=0)).transpile()
+                want = v
+                raw = bytes(sub)
+                dec = deserialize(raw, flavour=NVFlavour())
+        except Exception:
+            ctx.count("out_of_range_rejected" if out else "typed_in_range_rejected_loudly")
+            return ctx.case(case, True)
+        got = [i.line.value for i in dec.instructions if hasattr(i, "line")]
+        if got != [want]:
+            ctx.fail(case, f"silently altered: {m} with target {v} ({'listing with ' + str(case['comments']) + ' debug comment(s)' if kind == 'debug-branch' else 'through the NV transpiler'}) "
+                           f"was encoded without error and decodes with target {got}")
+        else:
+            ctx.count("in_range_twins_ok")
+        return ctx.case(case, True)
     elif kind == "carrier":
         from netqasm.lang import operand as op_
         from netqasm.lang.encoding import RegisterName
